@@ -3,41 +3,58 @@ import re
 
 ### Option 1 ###
 
-_rewrite_symbols = {
-    # Valid OSC address symbols with re meaning BEFORE special symbols rewrite.
-    '(': '\(',
-    ')': '\)',
-    '^': '\^',
-    '.': '\.',
-    '$': '\$',
-    '+': '\+',
-    '|': '\|',
-    '\\': '\\\\',
-
-    # OSC special symbols (are invalid or special OSC Address symbols).
-    '{': '(?:',
-    ',': '|',
-    '}': ')',
-    '*': '[^/]*',  # BUG: # lo ignora el * si luego viene ?, [, { o literal, por ejemplo: '/*bc'.matchOSCAddressPattern('/abc') es false y re.match('.bc', 'abc') devuelve match. Está en el párrafo anterior al cuadro en la especificación, dice que cada caracter de pattern debe coincidir con el próximo substring de address Y que todo caracter en address debe ser emparejado con algo de pattern.
-    # '[': '[',  # Same.
-    # '-': '-',  # Same behaviour inside/outside brackets.
-    '[!': '[^',
-    # ']': ']',  # Same.
-    '-]': ']', # Discard '-' before closing bracket.
-    '?': '[^/]'
-}
-
-
-_rewrite_pattern = re.compile(
-    '(' + '|'.join(re.escape(x) for x in _rewrite_symbols.keys()) + ')')
+def _rewrite_set(body):
+    # Only '!' right after '[' and '-' between two characters are special.
+    negate = body.startswith('!')
+    if negate:
+        body = body[1:]
+    items = []
+    i = 0
+    while i < len(body):
+        if body[i + 1:i + 2] == '-' and i + 2 < len(body):
+            if body[i] <= body[i + 2]:
+                items.append(
+                    re.escape(body[i]) + '-' + re.escape(body[i + 2]))
+            i += 3
+        else:
+            items.append(re.escape(body[i]))
+            i += 1
+    # A set never matches the separator, not even through a range.
+    if negate:
+        return '[^/' + ''.join(items) + ']'
+    elif items:
+        return '(?!/)[' + ''.join(items) + ']'
+    else:
+        return '(?!)'  # Empty set, matches nothing.
 
 
-def _rewrite_func(match):
-    return _rewrite_symbols[match.group(0)]
+def _rewrite_part(part):
+    # Translate one address part (the text between slashes) to a regex.
+    ret = ''
+    i = 0
+    while i < len(part):
+        char = part[i]
+        i += 1
+        if char == '?':
+            ret += '[^/]'
+        elif char == '*':
+            ret += '[^/]*'
+        elif char == '[' and ']' in part[i:]:
+            end = part.index(']', i)
+            ret += _rewrite_set(part[i:end])
+            i = end + 1
+        elif char == '{' and '}' in part[i:]:
+            end = part.index('}', i)
+            strings = part[i:end].split(',')  # Comma is special only here.
+            ret += '(?:' + '|'.join(re.escape(s) for s in strings) + ')'
+            i = end + 1
+        else:
+            ret += re.escape(char)  # Any other character matches itself.
+    return ret
 
 
 def osc_rematch_pattern(pattern, address):
-    pattern = re.sub(_rewrite_pattern, _rewrite_func, pattern)
+    pattern = '/'.join(_rewrite_part(part) for part in pattern.split('/'))
     return re.fullmatch(pattern, address) is not None
 
 
